@@ -50,7 +50,9 @@ def generate(prop, seed):
                 progs[ti].append(['queued'] if phase == 0 else ['running'])
                 phase += 1
             elif ti == fin and not used_result and r < 0.4:
-                progs[ti].append(['set_result', 'R%d' % seed])
+                # (every final task of the library returns None: the result of
+                # a successful transfer is None more often than not)
+                progs[ti].append(['set_result', None if rng.random() < 0.5 else 'R%d' % seed])
                 used_result = True
             elif r < 0.5:
                 progs[ti].append(['set_exception', new_e()])
